@@ -61,11 +61,14 @@ static void one_size(mp_size_t n, int kind, int place) {
     cy = mpn_rshift(big, big + off, n, cnt); fn_out_limbs("r", big, n); fn_out_u64("cy", cy); fn_end();
   }
   /* copies with overlap in the permitted direction, zero, cmp, zero_p */
-  { mp_size_t off = rnd_below(n + 1); mp_ptr big = gb_get(4, 2 * n + 2, place);
+  { mp_size_t offs[6], off; int no = 0, oi; mp_ptr big = gb_get(4, 2 * n + 2, place);
+    /* every distance class: none, one limb, all but one limb (overlap of exactly one limb), exactly n (adjacent), a seeded one; every distance for short operands */
+    offs[no++] = 0; offs[no++] = 1 <= n ? 1 : 0; offs[no++] = n > 1 ? n - 1 : 0; offs[no++] = n; offs[no++] = rnd_below(n + 1); offs[no++] = n > 2 ? n - 2 : 0;
+   for (oi = 0; oi < (n <= 16 ? (int)n + 1 : no); oi++) { off = n <= 16 ? oi : offs[oi];
     MPN_COPY(big + off, a, n);
     fn_begin("mpn_copyi"); fn_in_limbs("a", big + off, n); fn_in_int("n", n); fn_in_int("off", off); fn_mid(); mpn_copyi(big, big + off, n); fn_out_limbs("r", big, n); fn_end();
     MPN_COPY(big, a, n);
-    fn_begin("mpn_copyd"); fn_in_limbs("a", big, n); fn_in_int("n", n); fn_in_int("off", off); fn_mid(); mpn_copyd(big + off, big, n); fn_out_limbs("r", big + off, n); fn_end();
+    fn_begin("mpn_copyd"); fn_in_limbs("a", big, n); fn_in_int("n", n); fn_in_int("off", off); fn_mid(); mpn_copyd(big + off, big, n); fn_out_limbs("r", big + off, n); fn_end(); }
     fn_begin("mpn_zero"); fn_in_int("n", n); fn_mid(); gb_fill(r, n); mpn_zero(r, n); fn_out_limbs("r", r, n); fn_end();
     MPN_COPY(r, a, n); if (rnd64() & 1) r[rnd_below(n)] ^= (mp_limb_t)1 << rnd_below(64);
     fn_begin("mpn_cmp"); fn_in_limbs("a", a, n); fn_in_limbs("b", r, n); fn_in_int("n", n); fn_mid(); fn_out_int("ret", mpn_cmp(a, r, n)); fn_end();
